@@ -647,6 +647,7 @@ func Run(r *ev.Run) {
 	call := &alphabet{name: "call", atoms: callAtoms}
 	jkey := &alphabet{name: "json-key", atoms: jsonKeyAtoms}
 	esc := &alphabet{name: "escape", atoms: escapeAtoms}
+	num := &alphabet{name: "number", atoms: numberAtoms}
 
 	type job struct {
 		a       *alphabet
@@ -660,6 +661,7 @@ func Run(r *ev.Run) {
 	attr := wrapper{"attribute", "a = ", "\n"}
 	label := wrapper{"block-label", "b \"", "\" {}\n"}
 	index := wrapper{"index-key", "a[\"", "\"]"}
+	jsonVal := wrapper{"json-value", "{\"a\":", "}"}
 	var jobs []job
 	if thorough {
 		jobs = []job{
@@ -682,6 +684,9 @@ func Run(r *ev.Run) {
 			{esc, 4, label, eConfig},
 			{esc, 4, index, eExpr | eTraversal},
 			{esc, 4, jsonStr, eJSON},
+			{num, 5, jsonVal, eJSON | eJSONExpr},
+			{num, 5, attr, eLexConfig | eConfig},
+			{num, 5, identity, eExpr},
 		}
 	} else {
 		jobs = []job{
@@ -704,6 +709,9 @@ func Run(r *ev.Run) {
 			{esc, 3, label, eConfig},
 			{esc, 3, index, eExpr | eTraversal},
 			{esc, 3, jsonStr, eJSON},
+			{num, 4, jsonVal, eJSON | eJSONExpr},
+			{num, 4, attr, eLexConfig | eConfig},
+			{num, 4, identity, eExpr},
 		}
 	}
 
